@@ -153,7 +153,19 @@ def psd_proj(input):
     return (v * w) @ v.conjugate().T
 
 
-@nb.vectorize  # pragma: no cover
+# Explicit signatures, ordered from narrow to wide: a lazily compiled
+# vectorize keeps whichever loop was compiled first in the process, so a real
+# input after a complex one would otherwise be processed (and returned) as
+# complex.
+_thresh_signatures = [
+    nb.float32(nb.float32, nb.float32),
+    nb.float64(nb.float64, nb.float64),
+    nb.complex64(nb.float32, nb.complex64),
+    nb.complex128(nb.float64, nb.complex128),
+]
+
+
+@nb.vectorize(_thresh_signatures, cache=True)  # pragma: no cover
 def _soft_thresh(lamda, input):
     abs_input = abs(input)
     if abs_input == 0:
@@ -167,7 +179,7 @@ def _soft_thresh(lamda, input):
     return mag * sign
 
 
-@nb.vectorize  # pragma: no cover
+@nb.vectorize(_thresh_signatures, cache=True)  # pragma: no cover
 def _hard_thresh(lamda, input):
     abs_input = abs(input)
     if abs_input > lamda:
